@@ -507,3 +507,67 @@ func pathEndsInField(info *types.Info, f *Func, key string, fv *types.Var) bool 
 	})
 	return found
 }
+
+// ruleKillDoneCtx: Client.doneCtx exists only once runner.Start has succeeded,
+// while Client.runner is recorded before that - Kill after a launch that failed
+// runs with a runner and a nil doneCtx. In Kill every method call on the
+// context (the field, or a local bound once to it) therefore lies behind an
+// edge that establishes a started plugin: Client.address (or the local it was
+// read into) != nil, or the context itself != nil. Decided on feasible paths:
+// the "graceful" flag of the existing code is false unless the address was set.
+func ruleKillDoneCtx(c *Ctx) {
+	p := c.P
+	f := p.Fn("Client.Kill")
+	if f == nil {
+		c.R.Undecided("R-NILGUARD", "Client.Kill", "anchor", "function not found")
+		return
+	}
+	info := f.Pkg.TypesInfo
+	g := p.Graph(f)
+	ctxF := p.FieldObj(modPath, "Client", "doneCtx")
+	addrF := p.FieldObj(modPath, "Client", "address")
+	isField := func(e ast.Expr, fv *types.Var) bool {
+		e = ast.Unparen(e)
+		if SelField(info, e) == fv && fv != nil {
+			return true
+		}
+		if v, ok := identObj(info, e).(*types.Var); ok && !v.IsField() {
+			if d := p.singleDef(f, v); d != nil && SelField(info, ast.Unparen(d)) == fv {
+				return true
+			}
+		}
+		return false
+	}
+	established := func(e *Edge) bool {
+		at, ok := edgeAtom(info, e)
+		if !ok || at.Kind != "nil" || at.Op != token.NEQ {
+			return false
+		}
+		return isField(at.X, addrF) || isField(at.X, ctxF)
+	}
+	seen := p.FeasibleReach(f, []*Node{g.Entry}, nil, established)
+	n, bad := 0, false
+	walkNoLit(f.Body, func(x ast.Node) bool {
+		call, ok := x.(*ast.CallExpr)
+		if !ok {
+			return true
+		}
+		se, ok := ast.Unparen(call.Fun).(*ast.SelectorExpr)
+		if !ok || !isField(se.X, ctxF) {
+			return true
+		}
+		n++
+		node := g.NodeOf(call)
+		construct := "call " + exprStr(call.Fun) + "() on the exit context"
+		if node != nil && seen[node] {
+			bad = true
+			c.R.Violate("R-NILGUARD", p.Pos(call), f.Name, construct, "Kill calls a method on Client.doneCtx on a path on which neither the address nor the context was found non-nil: after a launch that failed inside runner.Start the runner is recorded but the context was never created, so the customary deferred Kill panics the host", nil)
+		} else {
+			c.R.Hold("R-NILGUARD", p.Pos(call), f.Name, construct, "reachable only behind Client.address != nil (or the context != nil) on feasible paths", true)
+		}
+		return true
+	})
+	if n == 0 && !bad {
+		c.R.Hold("R-NILGUARD", p.Pos(f.Node()), f.Name, "calls on the exit context in Kill", "none", false)
+	}
+}
